@@ -216,7 +216,7 @@ def branch_context(p):
 
 def check_sinks(ctx, rep, rule='G-sinks'):
     """every Coord pushed to a contour is the .point of an element of result_events (the ordered result events)"""
-    b, ps = rep.explore(ctx, CONNECT, rule)
+    b, ps = rep.explore(ctx, CONNECT, rule, expand_loops=True)
     if b is None:
         return
     n = 0
